@@ -7,10 +7,11 @@
 
    The model has a switch `fixed`:
      sd_step false  is the code as it stands in /repo (three-state FSM);
-     sd_step true   is the property-satisfying behaviour (candidate patch findings/C48-short-setup-packet.diff):
-                    a first word that is also the last word does not start a setup parse, a partial or
-                    non-last second word abandons the parse, and so does rx_good while the second word is
-                    still awaited.
+     sd_step true   is the property-satisfying behaviour (candidate patches findings/C48-short-setup-packet.diff
+                    and findings/C48-abort-on-first-word.diff): a first word that is also the last word, or that
+                    comes with rx_bad (packet aborted in that very cycle), does not start a setup parse; a partial
+                    or non-last second word abandons the parse, and so does rx_good or rx_bad while the second
+                    word is awaited or delivered.
    The code as it stands waits in PARSE_SECOND across packet boundaries when a good setup-flagged packet of
    4..7 bytes arrives: it then glues the first word of a LATER packet onto the stale first word (reporting a
    setup packet nobody sent) or drops a genuine setup packet. *)
@@ -45,7 +46,7 @@ Section Decoder.
   Definition sd_next (st : sd_st) (i : N) : sd_st :=
     match d_fsm st with
     | WaitFirst =>
-        if sd_full i && sd_first i && sd_setup i && (if fixed then negb (sd_last i) else true)
+        if sd_full i && sd_first i && sd_setup i && (if fixed then negb (sd_last i) && negb (sd_bad i) else true)
         then {| d_fsm := ParseSecond; d_w0 := sd_data i; d_w1 := d_w1 st; d_out := d_out st; d_rcv := false |}
         else {| d_fsm := WaitFirst; d_w0 := d_w0 st; d_w1 := d_w1 st; d_out := d_out st; d_rcv := false |}
     | ParseSecond =>
@@ -99,24 +100,33 @@ Definition ssd_next (s : ssd_st) (i : N) : ssd_st :=
 
 Definition ssd_step (s : ssd_st) (i : N) : ssd_st * N := (ssd_next s i, sd_pack_out (s_out s) (s_rcv s)).
 
-(* ---- environment: data packets as the protocol layer delivers them.
+(* ---- environment: data packets as the link layer's DataPacketReceiver delivers them.
    Between packets (E0) a packet may start (first word: `first`, full unless it is also the last) or a verdict
    may arrive for a packet without payload; inside a packet (EIn) words continue (no `first`; full unless last)
    or the packet is aborted by rx_bad; after the last word (EAwait) nothing but the verdict arrives.
-   A word and a verdict never share a cycle; rx_good and rx_bad never coincide. *)
+   rx_good never shares a cycle with a word and never coincides with rx_bad.  rx_bad MAY share a cycle with a
+   word of the packet (the receiver aborts a packet on a K-symbol in the payload by strobing packet_bad in the
+   very cycle it presents that word -- first, middle or last): the packet ends there, aborted. *)
 Inductive sd_est := E0 | EIn | EAwait.
-Definition sd_env_next (e : sd_est) (i : N) : option sd_est :=
+Definition sd_env_core (e : sd_est) (i : N) : option sd_est :=
   let w := sd_word i in let strobe := sd_good i || sd_bad i in
-  if (w && strobe) || (sd_good i && sd_bad i) then None
-  else match e with
-       | E0 => if w then (if sd_first i then (if sd_last i then Some EAwait else if sd_full i then Some EIn else None)
-                          else None)
-               else Some E0
-       | EIn => if w then (if sd_first i then None
-                           else if sd_last i then Some EAwait else if sd_full i then Some EIn else None)
-                else if sd_good i then None else if sd_bad i then Some E0 else Some EIn
-       | EAwait => if w then None else if strobe then Some E0 else Some EAwait
-       end.
+  match e with
+  | E0 => if w then (if sd_first i then (if sd_last i then Some EAwait else if sd_full i then Some EIn else None)
+                     else None)
+          else Some E0
+  | EIn => if w then (if sd_first i then None
+                      else if sd_last i then Some EAwait else if sd_full i then Some EIn else None)
+           else if sd_good i then None else if sd_bad i then Some E0 else Some EIn
+  | EAwait => if w then None else if strobe then Some E0 else Some EAwait
+  end.
+(* without a verdict in the cycle of a word *)
+Definition sd_env_plain (e : sd_est) (i : N) : option sd_est :=
+  if (sd_word i && (sd_good i || sd_bad i)) || (sd_good i && sd_bad i) then None else sd_env_core e i.
+Definition sd_env_next (e : sd_est) (i : N) : option sd_est :=
+  if (sd_word i && sd_good i) || (sd_good i && sd_bad i) then None
+  else if sd_word i && sd_bad i
+       then match sd_env_core e i with Some _ => Some E0 | None => None end     (* a legal word, and the abort *)
+       else sd_env_core e i.
 Fixpoint sd_env_ok (e : sd_est) (tr : list N) : bool :=
   match tr with
   | [] => true
@@ -178,4 +188,19 @@ Definition sd_mon (m i o : N) : option (N * bool) :=
   match sd_env_next e i with
   | None => None
   | Some e' => let (s', o') := ssd_step s i in Some (sd_mon_enc e' s', N.eqb o o')
+  end.
+
+(* ---- composed scenario: the real DataPacketReceiver feeding the decoder.  The target's output word carries the
+   decoder's input interface as driven by the receiver, followed by the decoder's outputs:
+     source.valid(4) first(1) last(1) data(32) header.setup(1) packet_good(1) packet_bad(1) | packet(64) received(1)
+   so the referee "a setup request is reported iff a good setup-flagged 8-byte data packet was received, with exactly
+   its bytes" is the same specification, read off the interface the real receiver drives.  Unlike sd_mon, a cycle in
+   which the receiver leaves the environment sd_env_next is a FAILURE here: the composition also validates the
+   environment assumption against the real upstream module. *)
+Definition sdc_mon (m i o : N) : option (N * bool) :=
+  let ii := bits o 0 41 in let oo := N.shiftr o 41 in
+  let (e, s) := sd_mon_dec m in
+  match sd_env_next e ii with
+  | None => Some (m, false)
+  | Some e' => let (s', o') := ssd_step s ii in Some (sd_mon_enc e' s', N.eqb oo o')
   end.
